@@ -39,8 +39,20 @@ func nilChild(n *ASTNode) bool {
 	return false
 }
 
+func noKind(n *ASTNode) bool {
+	if n.Name == "" {
+		return true
+	}
+	for _, c := range n.Children {
+		if c != nil && noKind(c) {
+			return true
+		}
+	}
+	return false
+}
+
 func TestVerifReplay(t *testing.T) {
-	inputs := []string{"1 )", "1 ; '", "a[ '", "if a { b ; ' }", "if true { ) ; 1 }", "func f() { ( ] ; 2 }", "a := 1 a", "1\n(2 ]"}
+	inputs := []string{"1 )", "1 ; '", "a[ '", "if a { b ; ' }", "if true { ) ; 1 }", "func f() { ( ] ; 2 }", "a := 1 a", "1\n(2 ]", "if a == { {} {}", "for a == { {} {}"}
 	for _, in := range inputs {
 		in := in
 		done := make(chan string, 1)
@@ -58,6 +70,8 @@ func TestVerifReplay(t *testing.T) {
 				done <- "NEITHER"
 			case n != nil && nilChild(n):
 				done <- "NIL-NODE-IN-TREE"
+			case n != nil && noKind(n):
+				done <- "NODE-WITHOUT-KIND-IN-TREE"
 			default:
 				done <- "ok"
 			}
